@@ -9,11 +9,21 @@ correspondence between the specification and the library on free models, is what
   random quadratic models written as raw `term 2 h_ab 1 <a> 0 <b>` lines with explicit Hermitian conjugates (real symmetric h
   on 2..5 modes; diagonal, degenerate, zero, block-diagonal h; complex Hermitian h in the complex build, thorough tier),
   default and ignored symmetries;
+  degenerate NON-diagonal h on 3..5 modes -- uniform ring, star with equal leaves, complete graph (tetrahedron) -- with exact
+  degeneracies (different eigenstates of one block whose computed energies agree only to a few ulp) and with levels split by
+  1e-9 .. 1e-13 (inside the library's resonance tolerance 1e-8, far outside 1e-16), always evaluated at frequency triples of
+  all three resonance kinds (n1 = n3, n2 = n3, n1 + n2 = -1 and their combinations) and 8 index quadruples;
   (1) G(z) against the EXACT inverse (z - h)^{-1} computed with python fractions (Gaussian elimination over complex rationals)
       at dyadic z off the real axis, and at the (binary64-rounded) Matsubara points;
   (2) for sampled index quadruples (all index patterns) and frequency triples from scen.matsubara_triples (n1 = n3, n2 = n3,
       n1 + n2 = -1 and their combinations): chi minus the Wick part built from the library's own G values must vanish, and the
       library's Vertex4::value must vanish, relative to beta*|G|^2.
+
+Observation recorded in the evidence (not a C12 violation, the values are right): TwoParticleGFPart::compute() ends with
+assert(NonResonantTerms.check_terms()) / assert(ResonantTerms.check_terms()); the library variants built by tools/pv.py are
+Release / RelWithDebInfo (NDEBUG), so the asserts are compiled out.  The harness evaluates check_terms() itself (`checkterms`);
+it returns false on the unmodified library for some degenerate free models (4-site ring, two equal dimers): see
+coverage.check_terms_observation and proposed/fix-termlist-check-terms.diff.
 
 Harness: harness/h_c12.cpp (scenario interpreter of ed_common.h; real GreensFunction, TwoParticleGF, Vertex4 objects).
 """
@@ -29,6 +39,16 @@ DROP = 1e-8
 ZS = [(0.5, 1.25), (-1.5, 0.75), (0.25, -2.0), (3.0, 0.5), (0.0, 0.375), (-0.125, -0.25)]
 NS = [0, 1, 3, -1, -2]
 VALS = [-2, -1.5, -1, -0.75, -0.5, -0.25, 0.25, 0.5, 0.75, 1, 1.5, 2]
+
+DEGFAMS = ("ring", "star", "complete", "dimers")
+# fixed inputs on which the unmodified library's check_terms() is false (an assertion-enabled build aborts in TwoParticleGFPart::compute);
+# the values must nevertheless satisfy the property: (name, h, beta, index quadruples that are always included)
+FIXED_DEG = [("ring-fixed", [[-0.05, 0.25, 0, 0.25], [0.25, -0.05, 0.25, 0], [0, 0.25, -0.05, 0.25], [0.25, 0, 0.25, -0.05]], 5, [(0, 0, 1, 1), (0, 0, 1, 2)]),
+             ("dimers-fixed", [[0.5, 0.25, 0, 0], [0.25, 0.5, 0, 0], [0, 0, 0.5, 0.25], [0, 0, 0.25, 0.5]], 2, [(0, 3, 3, 0), (1, 2, 1, 2)])]
+NEAR = [1e-9, 1e-10, 1e-11, 1e-12, 1e-13]
+# every resonance kind and every combination of two (all three at once is impossible), plus generic ones
+RES_TRIPLES = [(0, 0, 0), (-1, -1, -1), (1, 0, 1), (0, 1, 1), (0, -1, 2), (1, -2, 0), (0, -1, 0), (-1, 0, -1), (1, -2, -2), (-1, 0, 0),
+               (0, 1, 2)]
 
 LAYOUTS = {
     2: [("site A 1 2\n", [("A", 0, 0), ("A", 0, 1)], False)],
@@ -138,6 +158,21 @@ def levelpat(h):
     return ("deg" if deg else "nondeg") + ("+opp" if opp else "")
 
 
+def levelpat_near(h):
+    """levelpat, with "neardeg" when the levels are distinct but coincide once the entries are rounded to the grid 2^-20
+    (splittings of 1e-9 .. 1e-13 on top of small dyadic entries)"""
+    lp = levelpat(h)
+    if lp.startswith("nondeg"):
+        def rnd(x):
+            if isinstance(x, complex):
+                return complex(round(x.real * 2 ** 20) / 2 ** 20, round(x.imag * 2 ** 20) / 2 ** 20)
+            return round(x * 2 ** 20) / 2 ** 20
+        hr = [[rnd(x) for x in row] for row in h]
+        if hr != [list(row) for row in h] and levelpat(hr).startswith("deg"):
+            return "neardeg" + lp[len("nondeg"):]
+    return lp
+
+
 # ---------------------------------------------------------------------------
 # model generation: h on the modes of a layout
 
@@ -185,6 +220,51 @@ def gen_h(rng, M, kind, cplx):
             h[a][a], h[a + 1][a + 1] = e, -e
             h[a][a + 1] = t
             h[a + 1][a] = t.conjugate() if cplx else t
+    elif kind.split("-")[0] in DEGFAMS:
+        # degenerate levels of DIFFERENT eigenstates with non-trivial eigenvectors (the eigensolver returns them a few ulp apart):
+        #   ring      e on the diagonal, t between neighbours (M >= 3): cos(2 pi k / M) pairs
+        #   star      centre level ec, M-1 equal leaves el coupled to the centre only: M-2 fold level el
+        #   complete  e on the diagonal, t between all pairs: (M-1)-fold level e - t
+        #   dimers    decoupled identical pairs (0,1), (2,3), ...: every level twice
+        # "-near": one level / one bond moved by 1e-9 .. 1e-13 (resonant for the library's 1e-8, not for 1e-16)
+        base = kind.split("-")[0]
+        e = rng.choice([0, 0.25, -0.25, 0.5, -0.5])
+        t = rng.choice([0.25, 0.5, -0.5, 0.75, -0.75, 1])
+        if base == "ring":
+            for a in range(M):
+                h[a][a] = e
+                b = (a + 1) % M
+                h[a][b] = t
+                h[b][a] = t
+        elif base == "dimers":
+            for a in range(M):
+                h[a][a] = e
+            for a in range(0, M - 1, 2):
+                h[a][a + 1] = t
+                h[a + 1][a] = t
+        elif base == "star":
+            h[0][0] = rng.choice(VALS)
+            for a in range(1, M):
+                h[a][a] = e
+                h[0][a] = t
+                h[a][0] = t
+        else:
+            for a in range(M):
+                for b in range(M):
+                    h[a][b] = e if a == b else t
+        if "near" in kind:
+            d = rng.choice(NEAR) * rng.choice([1, -1])
+            a = rng.randrange(1, M)
+            if rng.random() < 0.5:
+                h[a][a] += d
+            else:
+                b = 0 if base == "star" else ((a ^ 1) if base == "dimers" and (a ^ 1) < M else (a + 1) % M)
+                h[a][b] += d
+                h[b][a] = h[a][b]
+        if cplx:
+            # gauge transformation h_ab -> d_a conj(d_b) h_ab with d in {1, i, -1, -i}: same spectrum, complex Hermitian entries
+            ph = [rng.choice([1, 1j, -1, -1j]) for _ in range(M)]
+            h = [[complex(ph[a] * complex(h[a][b]) * ph[b].conjugate()) if a != b else h[a][b] for b in range(M)] for a in range(M)]
     else:   # random
         for a in range(M):
             h[a][a] = rng.choice(VALS + [0])
@@ -254,7 +334,7 @@ def respat(t):
 
 # ---------------------------------------------------------------------------
 
-def evaluate(text, modes, h, variant, quads, triples, hbin=None):
+def evaluate(text, modes, h, variant, quads, triples, hbin=None, checkterms=False):
     """returns (fails, cases, info)"""
     hbin = hbin or pv.build_harness("h_c12", variant)
     M = len(modes)
@@ -269,6 +349,9 @@ def evaluate(text, modes, h, variant, quads, triples, hbin=None):
         q.append("gfn %d %d %s" % (i, j, " ".join(str(n) for n in NS)))
     for qd in quads:
         q.append("vertex %d %d %d %d %d %s" % (qd + (len(triples), " ".join("%d %d %d" % t for t in triples))))
+    if checkterms:
+        for qd in quads:
+            q.append("checkterms %d %d %d %d" % qd)
     inp = "model\n%s\nend\n%s\n" % (text.strip(), "\n".join(q))
     rc, out, err = pv.run_harness(hbin, inp, timeout=900)
     info = {"rc": rc, "error": None}
@@ -283,6 +366,11 @@ def evaluate(text, modes, h, variant, quads, triples, hbin=None):
         info["error"] = "harness exit code %d: %s" % (rc, err[-300:])
     if info["error"]:
         return fails, cases, info
+    # the conditions asserted at the end of TwoParticleGFPart::compute(), evaluated by the harness (observation only)
+    info["check_terms"] = [{"quad": [int(x) for x in t[1:5]], "parts": int(t[5]), "nonresonant_lists_failing": int(t[6]), "resonant_lists_failing": int(t[7]),
+                            "stored_terms_negligible_for_final_size": int(t[8]), "order_violations": int(t[9]),
+                            "smallest_such_coefficient": pv.hexf(t[10]), "its_threshold": pv.hexf(t[11]), "list_size": int(t[12])}
+                           for t in recs if t[0] == "CT"]
     # single-particle index of each mode
     idx = {}
     for t in recs:
@@ -290,7 +378,7 @@ def evaluate(text, modes, h, variant, quads, triples, hbin=None):
             idx[(t[2], int(t[3]), int(t[4]))] = int(t[1])
     perm = [idx[m] for m in modes]                  # mode a of h  ->  library index perm[a]
     inv = {perm[a]: a for a in range(M)}
-    lp = levelpat(h)
+    lp = levelpat_near(h)
     info["levels"] = lp
     nd = M * 2 ** (M - 1)                           # number of non-zero matrix elements of a field operator, at most
 
@@ -434,6 +522,28 @@ def models(chk, quick):
                 if kind == "zero" and beta > 4:
                     beta = 2
                 out.append((kind, "real", layout, modes, h, symm, beta))
+    # degenerate non-diagonal h (ring / star / complete graph), exact and nearly degenerate
+    layout, modes, _ = LAYOUTS[4][0]
+    for name, h, beta, _ in FIXED_DEG:
+        for symm in ("default", "ignore"):
+            out.append((name, "real", layout, modes, h, symm, beta))
+    degplan = [(3, "ring"), (3, "ring-near"), (4, "ring"), (4, "star"), (4, "complete"), (4, "dimers"), (4, "ring-near"), (4, "star-near"), (4, "complete-near"),
+               (4, "dimers-near")]
+    if not quick:
+        degplan += [(3, "complete"), (3, "complete-near"), (4, "ring"), (4, "star"), (4, "complete"), (5, "ring"), (5, "star-near"), (5, "complete")]
+    for M, kind in degplan:
+        layout, modes, must_ignore = rng.choice(LAYOUTS[M])
+        symms = ["ignore"] if must_ignore else (["default", "ignore"] if ("near" not in kind or not quick) else [rng.choice(["default", "ignore"])])
+        h = gen_h(rng, M, kind, False)
+        beta = rng.choice([1, 2, 4, 5, 10] if M <= 4 else [1, 2])
+        for symm in symms:
+            out.append((kind, "real", layout, modes, h, symm, beta))
+    if not quick:
+        for M, kind in [(3, "ring"), (4, "ring"), (4, "star"), (4, "complete"), (4, "complete-near"), (4, "ring-near")]:
+            layout, modes, must_ignore = rng.choice(LAYOUTS[M])
+            h = gen_h(rng, M, kind, True)
+            for symm in (["ignore"] if must_ignore else ["default", "ignore"]):
+                out.append((kind + "-complex", "complex", layout, modes, h, symm, rng.choice([1, 2, 4])))
     if not quick:
         for M in (2, 2, 4, 4, 4):
             for kind in ("random", "degenerate", "block", "ph-symmetric", "diag-degenerate"):
@@ -465,13 +575,35 @@ def run(chk):
         M = len(modes)
         text = model_text(layout, modes, h, symm, beta)
         nq = 5 if quick else 8
+        degfam = kind.split("-")[0] in DEGFAMS
         if kind.startswith("proved-"):
             quads, triples = PROVED_QUADS, PROVED_TRIPLES
+        elif degfam:
+            # always every resonance kind: the degenerate levels matter only where a bosonic frequency combination vanishes
+            quads = quadruples(chk.rng, M, 8 if M <= 4 else 5)
+            for name, _, _, fq in FIXED_DEG:
+                if kind == name:
+                    quads = fq + [q for q in quads if q not in fq][:8 - len(fq)]
+            triples = RES_TRIPLES + scen.matsubara_triples(chk.rng, 3 if quick else 6, span=2)
         else:
             quads = quadruples(chk.rng, M, nq if M <= 4 else 4)
             triples = scen.matsubara_triples(chk.rng, 10 if quick else 16, span=2) + [(0, 0, 0), (0, -1, 0), (1, -2, -2)]
-        fails, cases, info = evaluate(text, modes, h, variant, quads, triples, hb[variant])
+        fails, cases, info = evaluate(text, modes, h, variant, quads, triples, hb[variant], checkterms=degfam or kind.startswith("degenerate"))
         nmod += 1
+        ct = info.get("check_terms") or []
+        if ct:
+            obs = chk.extra.setdefault("check_terms_observation", {
+                "what": "TwoParticleGFPart::compute() ends with assert(NonResonantTerms.check_terms()); assert(ResonantTerms.check_terms()); "
+                        "(compiled out: the library variants are built with NDEBUG). Evaluated by the harness on freshly computed objects; "
+                        "a false result means a build with assertions enabled aborts on this input although the computed values are right "
+                        "(not a C12 violation; see proposed/fix-termlist-check-terms.diff)",
+                "objects_examined": 0, "objects_where_check_terms_is_false": 0, "order_violations": 0, "examples": []})
+            obs["objects_examined"] += len(ct)
+            bad = [c for c in ct if c["nonresonant_lists_failing"] or c["resonant_lists_failing"]]
+            obs["objects_where_check_terms_is_false"] += len(bad)
+            obs["order_violations"] += sum(c["order_violations"] for c in ct)
+            if bad and len(obs["examples"]) < 4:
+                obs["examples"].append({"family": kind, "symm": symm, "variant": variant, "scenario": text, "first": bad[0], "objects_failing": len(bad), "of": len(ct)})
         if info.get("error"):
             chk.case("%s|%s" % (kind, text), "build-error %s M=%d %s" % (kind, M, symm), nontrivial=False)
             chk.notes.append("model %s M=%d symm=%s did not build: %s" % (kind, M, symm, info["error"]))
@@ -514,7 +646,9 @@ def run(chk):
     chk.extra["models"] = nmod
     chk.extra["cases_by_family"] = famhist
     chk.rule = ("models: Hermitian h on M = 2..4 modes (5 in the thorough tier) of the kinds random / diagonal / diagonal with equal and opposite levels / "
-                "degenerate with non-trivial eigenvectors / zero / block-diagonal / particle-hole symmetric spectrum, written as raw quadratic terms, default "
+                "degenerate with non-trivial eigenvectors / zero / block-diagonal / particle-hole symmetric spectrum / uniform ring, star with equal leaves, "
+                "complete graph on 3..5 modes with exactly degenerate levels and with levels split by 1e-9..1e-13 (8 quadruples x the 10 resonant triples of "
+                "RES_TRIPLES + 1 generic + 3-6 random), written as raw quadratic terms, default "
                 "and ignored symmetries (complex Hermitian h in the complex build: thorough tier). Per model: every ordered pair (i,j) at 6 dyadic z and 5 Matsubara "
                 "points against the exact / float inverse of (z - h); 5-8 index quadruples (patterns ijij, ijji, iiii and random) x 13-19 frequency triples aimed at "
                 "n1=n3, n2=n3, n1+n2=-1: chi - chi0 and Vertex4::value against 0. distinct = distinct (model text, quadruple, triple); non-trivial = chi or chi0 "
